@@ -291,9 +291,11 @@ class WebsocketSession(object):
         """Check if a ping is required."""
         if ping_rate and session_time > self._next_ping:
             # Calculate next ping time that is in the future.
-            self._next_ping = (
-                math.ceil(session_time / ping_rate) * ping_rate
-            )
+            next_ping = math.ceil(session_time / ping_rate) * ping_rate
+            if next_ping <= session_time:
+                # Float rounding: 3 * 0.3 < 0.9 although 0.9 / 0.3 == 3
+                next_ping += ping_rate
+            self._next_ping = next_ping
             try:
                 self.websocket.send_ping()
             except errors.WebSocketError:
